@@ -1,5 +1,6 @@
 import Indi.Properties.C02
 import Indi.Properties.Wire
+import Indi.Properties.Decisions
 #print axioms Indi.Buf.C02_abstract
 #print axioms Indi.Buf.C02_fragmentation_independent
 #print axioms Indi.Buf.generated_tagsOk
@@ -11,3 +12,5 @@ import Indi.Properties.Wire
 #print axioms Indi.Xml.C02_wire'
 #print axioms Indi.Xml.parseDoc_prefix
 #print axioms Indi.Xml.parseDoc_opener
+#print axioms Indi.Decisions.bufLoopGuard_agrees
+#print axioms Indi.Decisions.bufCleanupDue_agrees
